@@ -50,7 +50,15 @@ OrderVerdict(c) ==
   IF "panic" \in DOMAIN c \/ c.err # "" THEN "bad"
   ELSE LET want == SelectSeq(Flat(c.stamps, 1, 0), LAMBDA e : e.st >= c.x) IN
        IF c.got = [i \in 1..Len(want) |-> want[i].g] THEN "ok" ELSE "bad"
-Verdict(c) == IF c.t = "dmg" THEN DmgVerdict(c) ELSE IF c.t = "order" THEN OrderVerdict(c) ELSE TruncVerdict(c)
+(* rotation that cannot create the next file, truncation, more appends: whatever was acknowledged and is stamped later than T *)
+(* comes back; nothing comes back that was never handed to append                                                          *)
+RotFailVerdict(c) ==
+  IF "panic" \in DOMAIN c THEN "bad"
+  ELSE IF /\ \A s \in RangeS(c.acked) : s > c.T => s \in RangeS(c.after)
+          /\ RangeS(c.after) \subseteq RangeS(c.acked) \cup RangeS(c.maybe)
+       THEN "ok" ELSE "bad"
+Verdict(c) == IF c.t = "dmg" THEN DmgVerdict(c) ELSE IF c.t = "order" THEN OrderVerdict(c)
+              ELSE IF c.t = "rotfail" THEN RotFailVerdict(c) ELSE TruncVerdict(c)
 
 TraceInit == l = 1 /\ sizes = <<>> /\ dmg = NoDamage
 TraceNext ==
